@@ -355,9 +355,59 @@ def paragraph_arm_fn(text):
             + arm + "\n}\n")
 
 
+def _index_loops(b, inv):
+    """every `for V in &E {` / `for V in E {` / `for V in E.iter() {` -> an index loop over E with the invariant `inv` (an index `while` when the body is innermost
+    and uses `continue`)"""
+    k = 0
+    while True:
+        m = re.search(r"for\s+(\w+)\s+in\s+&?([\w\.]+?)(?:\.iter\(\))?\s*\{", b)
+        if not m:
+            return b
+        e = match_brace(b, m.end() - 1)
+        body = b[m.end():e - 1]
+        v, xs = m.group(1), m.group(2)
+        ix = "i%d_" % k
+        k += 1
+        if re.search(r"\bcontinue\b", body):          # this Verus rejects `continue` anywhere inside a `for` body, nested loops included
+            head = "let mut %s: usize = 0;\n  while %s < %s.len()\n    invariant %s,\n    decreases %s.len() - %s,\n  {\n    let %s = &%s[%s]; %s += 1;" % (ix, ix, xs, inv, xs, ix, v, xs, ix, ix)
+        else:
+            head = ("for %s in 0..%s.len()\n    invariant %s,\n  {\n    let %s = &%s[%s];" % (ix, xs, inv, v, xs, ix)).replace("for ", "f\x00r ")   # protect the generated header from the next search
+        b = b[:m.start()] + head + body + "}" + b[e:]
+
+
+def table_arms_fn(text):
+    """the arms `SectionElement::Table(x)` and `SectionElement::FigureTable(x)` of `section_element` as `fn table_arm(x, p)` / `fn figure_table_arm(x, p)`: the three nested
+    loops over rows / cells (figures) / paragraph elements -> index loops (_index_loops), `x.hash(&mut hasher)` dropped (it feeds the element id only),
+    `paragraph_element(&el, p)` -> `paragraph_element(el, p)`, `p.out_values.borrow_mut().insert(k, v.clone())` -> `p.out_values_insert(k, v)`"""
+    sig, body = extract_fn(text, "section_element")
+    b0 = vC16.apply_cfg(re.sub(r"//[^\n]*", "", body).replace("\r", ""), _features())
+    out = ""
+    for variant, fn, ty in (("Table", "table_arm", "Table"), ("FigureTable", "figure_table_arm", "FigureTable")):
+        m = re.search(r"SectionElement::%s\(\s*(\w+)\s*\)\s*=>\s*\{" % variant, b0)
+        if not m:
+            raise AnchorLost("section_element: the arm `SectionElement::%s(x)` not found" % variant)
+        x = m.group(1)
+        arm = b0[m.end():match_brace(b0, m.end() - 1) - 1]
+        arm = re.sub(r"\b%s\.hash\(\s*&mut\s+hasher\s*\)\s*;" % x, "", arm)
+        arm = re.sub(r"paragraph_element\(\s*&(\w+)\s*,", r"paragraph_element(\1,", arm)
+        arm = re.sub(r"\b(\w+)\.out_values\.borrow_mut\(\)\.insert\(\s*(\w+)\s*,\s*(\w+)\.clone\(\)\s*\)", r"\1.out_values_insert(\2, \3)", arm)
+        arm = _index_loops(arm, "p.vars == old(p).vars").replace("f\x00r ", "for ")
+        if re.search(r"\b(borrow_mut|iter|hasher|return)\b", arm):
+            raise AnchorLost("section_element / %s: the arm is outside the transcription rules" % variant)
+        out += ("fn %s(%s: &%s, p: &mut Interpreter)\n  ensures final(p).vars == old(p).vars,          // a table cell / figure caption writes no variable\n{\n" % (fn, x, ty) + arm + "\n}\n")
+    return out
+
+
+TABLE_MODEL = """
+pub struct Table { pub rows: Vec<Vec<Paragraph>> }
+pub struct Figure { pub caption: Paragraph }
+pub struct FigureTable { pub rows: Vec<Vec<Figure>> }
+"""
+
+
 def prose_unit(text):
     return "use vstd::prelude::*;\nverus! {\n" + PROSE_MODEL + paragraph_element_fn(text) + vlib.verus_canary("canary_c10_prose", "x: u64", []) + "\n} // verus!\nfn main() {}\n"
 
 
 def comment_unit(text):
-    return "use vstd::prelude::*;\nverus! {\n" + PROSE_MODEL + paragraph_element_fn(text) + comment_fn(text) + paragraph_arm_fn(text) + vlib.verus_canary("canary_c10_comment", "x: u64", []) + "\n} // verus!\nfn main() {}\n"
+    return "use vstd::prelude::*;\nverus! {\n" + PROSE_MODEL + paragraph_element_fn(text) + comment_fn(text) + paragraph_arm_fn(text) + TABLE_MODEL + table_arms_fn(text) + vlib.verus_canary("canary_c10_comment", "x: u64", []) + "\n} // verus!\nfn main() {}\n"
